@@ -16,6 +16,198 @@ theorem fmt_readReply : fmtReadReply = [.I, .B] := by decide
 theorem packUnsigned_nat (k n : Nat) :
     packUnsigned k (n : Int) = if n < 256 ^ k then .ok (leBytes k n) else .error .structError := rfl
 
+/-! ### Gen obligations used by the lemmas below -/
+theorem gen_readMax_byte : Gen.C06.readMax < 256 := by decide
+theorem gen_read_fits : 6 ≤ Gen.C06.maxDataSize := by decide
+theorem gen_write_fits : 5 + Gen.C06.writeMax ≤ Gen.C06.maxDataSize := by decide
+theorem gen_chans : Gen.C06.chanRead ≠ Gen.C06.chanWrite := by decide
+
+theorem unpack5 (a b c d e : UInt8) : ∃ vs, unpack [.B, .B, .B, .B, .B] [a, b, c, d, e] = .ok vs := by
+  simp [unpack, Code.size, Code.takesVal, bind, Except.bind, pure, Except.pure]
+
+theorem leBytes1 (n : Nat) : leBytes 1 n = [UInt8.ofNat (n % 256)] := rfl
+theorem leBytes4 (n : Nat) : ∃ a b c d, leBytes 4 n = [a, b, c, d] := ⟨_, _, _, _, rfl⟩
+
+/-- the wire image of a read request -/
+def readReqBytes (id cur n : Nat) : List UInt8 := leBytes 1 id ++ (leBytes 4 cur ++ leBytes 1 n)
+/-- the 5-byte head `id, address` shared by write requests and all replies -/
+def headBytes (id addr : Nat) : List UInt8 := leBytes 1 id ++ leBytes 4 addr
+
+/-- the length asked for by the next read chunk -/
+def rdLen (left : Nat) : Nat := if left > Gen.C06.readMax then Gen.C06.readMax else left
+/-- the length of the next write chunk -/
+def wrLen (restLen : Nat) : Nat := if restLen > Gen.C06.writeMax then Gen.C06.writeMax else restLen
+
+theorem readLen_le (left : Nat) : rdLen left ≤ Gen.C06.readMax := by unfold rdLen; split <;> omega
+theorem readLen_le' (left : Nat) : rdLen left ≤ left := by unfold rdLen; split <;> omega
+theorem wrLen_le (n : Nat) : wrLen n ≤ Gen.C06.writeMax := by unfold wrLen; split <;> omega
+theorem wrLen_le' (n : Nat) : wrLen n ≤ n := by unfold wrLen; split <;> omega
+
+theorem requestNewChunk_ok (r : RReq) (hid : r.id < 256) (hcur : r.cur < 2 ^ 32) :
+    requestNewChunk r = .ok (.send Gen.C06.chanRead (readReqBytes r.id r.cur (rdLen r.left))) := by
+  have hn : rdLen r.left < 256 ^ 1 := by have := readLen_le r.left; have := gen_readMax_byte; omega
+  have h4 : r.cur < 256 ^ 4 := by omega
+  have h1 : r.id < 256 ^ 1 := by omega
+  obtain ⟨a, b, c, d, h4b⟩ := leBytes4 r.cur
+  unfold requestNewChunk
+  simp only [fmt_readReq, fmt_readExp]
+  have hp : pack [.B, .I, .B] [.int r.id, .int r.cur, .int (rdLen r.left)] =
+      .ok (readReqBytes r.id r.cur (rdLen r.left)) := by
+    simp [pack, packOne, packUnsigned_nat, h4, h1, hn, bind, Except.bind, pure, Except.pure, readReqBytes]
+  have : (if r.left > Gen.C06.readMax then Gen.C06.readMax else r.left) = rdLen r.left := rfl
+  simp only [this, hp]
+  have hd : (readReqBytes r.id r.cur (rdLen r.left)).dropLast = [UInt8.ofNat (r.id % 256), a, b, c, d] := by
+    simp [readReqBytes, leBytes1, h4b]
+  obtain ⟨vs, hv⟩ := unpack5 (UInt8.ofNat (r.id % 256)) a b c d
+  rw [hd, hv]
+  have hl : (readReqBytes r.id r.cur (rdLen r.left)).length = 6 := by simp [readReqBytes]
+  have := gen_read_fits
+  simp only [sendPacket, hl]
+  rw [if_neg (by omega)]
+
+/-- the request after `_write_new_chunk` -/
+def WReq.afterChunk (w : WReq) : WReq :=
+  { w with rest := w.rest.drop (wrLen w.rest.length), addrAdd := wrLen w.rest.length,
+           left := w.left - wrLen w.rest.length }
+
+theorem writeNewChunk_ok (w : WReq) (hid : w.id < 256) (hcur : w.cur < 2 ^ 32) :
+    writeNewChunk w = (w.afterChunk, .ok (.send Gen.C06.chanWrite
+      (headBytes w.id w.cur ++ w.rest.take (wrLen w.rest.length)))) := by
+  have h4 : w.cur < 256 ^ 4 := by omega
+  have h1 : w.id < 256 ^ 1 := by omega
+  obtain ⟨a, b, c, d, h4b⟩ := leBytes4 w.cur
+  unfold writeNewChunk
+  simp only [fmt_writeHdr, fmt_writeExp]
+  have hp : pack [.B, .I] [.int w.id, .int w.cur] = .ok (headBytes w.id w.cur) := by
+    simp [pack, packOne, packUnsigned_nat, h4, h1, bind, Except.bind, pure, Except.pure, headBytes]
+  have : (if w.rest.length > Gen.C06.writeMax then Gen.C06.writeMax else w.rest.length) = wrLen w.rest.length := rfl
+  simp only [this, hp]
+  have hd : headBytes w.id w.cur = [UInt8.ofNat (w.id % 256), a, b, c, d] := by
+    simp [headBytes, leBytes1, h4b]
+  obtain ⟨vs, hv⟩ := unpack5 (UInt8.ofNat (w.id % 256)) a b c d
+  rw [hd, hv]
+  have hl : ([UInt8.ofNat (w.id % 256), a, b, c, d] ++ List.take (wrLen w.rest.length) w.rest).length ≤ Gen.C06.maxDataSize := by
+    have := gen_write_fits
+    have := wrLen_le w.rest.length
+    simp only [List.length_append, List.length_cons, List.length_nil, List.length_take]
+    omega
+  simp only [sendPacket]
+  rw [if_neg (by omega)]
+  simp [WReq.afterChunk, List.length_take, Nat.min_eq_left (wrLen_le' _)]
+
+
+/-! ### dictionaries -/
+
+section Dict
+variable {α : Type}
+
+def dkeys (d : List (Nat × α)) : List Nat := d.map (·.1)
+
+theorem dhas_eq_isSome (d : List (Nat × α)) (k : Nat) : dhas d k = (dget? d k).isSome := by
+  induction d with
+  | nil => rfl
+  | cons e es ih =>
+    simp only [dhas, List.any_cons, dget?] at *
+    by_cases h : e.1 == k <;> simp [h, ih]
+
+theorem dget?_dset_same (d : List (Nat × α)) (k : Nat) (v : α) : dget? (dset d k v) k = some v := by
+  induction d with
+  | nil => simp [dset, dget?]
+  | cons e es ih =>
+    by_cases h : e.1 == k <;> simp [dset, dget?, h, ih]
+
+theorem dget?_dset_other (d : List (Nat × α)) {k k' : Nat} (v : α) (h : k' ≠ k) :
+    dget? (dset d k v) k' = dget? d k' := by
+  induction d with
+  | nil => simp [dset, dget?]; intro h'; exact absurd h'.symm h
+  | cons e es ih =>
+    by_cases h1 : e.1 == k
+    · have : e.1 = k := by simpa using h1
+      simp [dset, dget?, this, Ne.symm h]
+    · by_cases h2 : e.1 == k' <;> simp [dset, dget?, h1, h2, ih]
+
+theorem dget?_derase_same (d : List (Nat × α)) (k : Nat) : dget? (derase d k) k = none := by
+  induction d with
+  | nil => rfl
+  | cons e es ih =>
+    by_cases h : e.1 == k <;> simp [derase, dget?, h, ih]
+
+theorem dget?_derase_other (d : List (Nat × α)) {k k' : Nat} (h : k' ≠ k) :
+    dget? (derase d k) k' = dget? d k' := by
+  induction d with
+  | nil => rfl
+  | cons e es ih =>
+    by_cases h1 : e.1 == k
+    · have : e.1 = k := by simpa using h1
+      simp [derase, dget?, this, Ne.symm h, ih]
+    · by_cases h2 : e.1 == k' <;> simp [derase, dget?, h1, h2, ih]
+
+theorem dkeys_dset (d : List (Nat × α)) (k : Nat) (v : α) :
+    dkeys (dset d k v) = if dhas d k then dkeys d else dkeys d ++ [k] := by
+  induction d with
+  | nil => simp [dset, dkeys, dhas]
+  | cons e es ih =>
+    by_cases h : e.1 == k
+    · have : e.1 = k := by simpa using h
+      simp [dset, dkeys, dhas, h, this]
+    · have hb : (e.1 == k) = false := by simpa using h
+      simp only [dset, hb, dkeys, List.map_cons, dhas, List.any_cons, Bool.false_or, Bool.false_eq_true,
+        ↓reduceIte] at *
+      rw [ih]; split <;> simp_all
+
+theorem mem_dkeys_iff (d : List (Nat × α)) (k : Nat) : k ∈ dkeys d ↔ dhas d k = true := by
+  simp [dkeys, dhas]
+
+theorem dkeys_derase_sublist (d : List (Nat × α)) (k : Nat) : (dkeys (derase d k)).Sublist (dkeys d) := by
+  induction d with
+  | nil => simp [derase, dkeys]
+  | cons e es ih =>
+    by_cases h : e.1 == k
+    · simp only [derase, h, dkeys, List.map_cons] at *; exact List.Sublist.cons _ ih
+    · simp only [derase, h, dkeys, List.map_cons] at *; exact List.Sublist.cons₂ _ ih
+
+theorem nodup_dkeys_dset {d : List (Nat × α)} (k : Nat) (v : α) (h : (dkeys d).Nodup) :
+    (dkeys (dset d k v)).Nodup := by
+  rw [dkeys_dset]
+  split
+  · exact h
+  · rename_i hk
+    rw [List.nodup_append]
+    refine ⟨h, by simp, ?_⟩
+    intro a ha b hb
+    simp at hb; subst hb
+    intro hab; subst hab
+    exact hk ((mem_dkeys_iff d a).1 ha)
+
+theorem nodup_dkeys_derase {d : List (Nat × α)} (k : Nat) (h : (dkeys d).Nodup) :
+    (dkeys (derase d k)).Nodup := h.sublist (dkeys_derase_sublist d k)
+
+theorem dget?_of_mem {d : List (Nat × α)} (h : (dkeys d).Nodup) {k : Nat} {v : α} (hm : (k, v) ∈ d) :
+    dget? d k = some v := by
+  induction d with
+  | nil => cases hm
+  | cons e es ih =>
+    simp only [dkeys, List.map_cons, List.nodup_cons] at h
+    rcases List.mem_cons.1 hm with rfl | hm
+    · simp [dget?]
+    · have : e.1 ≠ k := by
+        intro he; apply h.1; rw [he]; exact List.mem_map.2 ⟨(k, v), hm, rfl⟩
+      have hb : (e.1 == k) = false := by simpa using this
+      simp only [dget?, hb]; exact ih h.2 hm
+
+theorem mem_of_dget? {d : List (Nat × α)} {k : Nat} {v : α} (h : dget? d k = some v) : (k, v) ∈ d := by
+  induction d with
+  | nil => cases h
+  | cons e es ih =>
+    by_cases hb : e.1 == k
+    · have : e.1 = k := by simpa using hb
+      simp only [dget?, hb, ↓reduceIte, Option.some.injEq] at h
+      have : e = (k, v) := by rw [← this, ← h]
+      rw [this]; exact List.mem_cons_self
+    · simp only [dget?, hb] at h; exact List.mem_cons_of_mem _ (ih h)
+
+end Dict
+
 /-! ### the lock is never left behind (repaired code) -/
 
 /-- the call returned or raised (it did not block on the lock) and the lock is free afterwards -/
@@ -28,13 +220,29 @@ theorem memWriteLocked_lock (s : St) (w : WReq) (flush : Bool) :
     (memWriteLocked Variant.fixed s w flush).LockFree := by
   fun_cases memWriteLocked Variant.fixed s w flush <;> simp_all [Step.LockFree, Variant.fixed]
 
+theorem onWriteReply_lock (s : St) (id addr status : Nat) (h : s.lock = false) :
+    (onWriteReply Variant.fixed s id addr status).LockFree := by
+  fun_cases onWriteReply Variant.fixed s id addr status <;> simp_all [Step.LockFree, Variant.fixed]
+
 theorem handleChanWrite_lock (s : St) (cmd : Nat) (payload : List UInt8) (h : s.lock = false) :
     (handleChanWrite Variant.fixed s cmd payload).LockFree := by
-  fun_cases handleChanWrite Variant.fixed s cmd payload <;> simp_all [Step.LockFree, Variant.fixed]
+  unfold handleChanWrite
+  split
+  · simp [Step.LockFree, h]
+  · exact onWriteReply_lock s _ _ _ h
+  · simp [Step.LockFree, h]
+
+theorem onReadReply_lock (s : St) (id addr status : Nat) (data : List UInt8) :
+    (onReadReply s id addr status data).LockSame s := by
+  fun_cases onReadReply s id addr status data <;> simp_all [Step.LockSame]
 
 theorem handleChanRead_lock (s : St) (cmd : Nat) (payload : List UInt8) :
     (handleChanRead s cmd payload).LockSame s := by
-  fun_cases handleChanRead s cmd payload <;> simp_all [Step.LockSame]
+  unfold handleChanRead
+  split
+  · simp [Step.LockSame]
+  · exact onReadReply_lock s _ _ _ _
+  · simp [Step.LockSame]
 
 theorem memRead_lock (s : St) (tag id addr len : Nat) : (memRead s tag id addr len).LockSame s := by
   fun_cases memRead s tag id addr len <;> (try simp_all [Step.LockSame]) <;> rfl
